@@ -7,13 +7,28 @@ import common as C
 from common import Failure, q, coq_list
 
 ID = "C12"
-GEN = ["gen_flowtables", "gen_qcumulant"]
+GEN = ["gen_flowtables", "gen_qcumulant", "gen_flowest"]
 MODEL_INDEPENDENT_OF_PROOFS = True
 ALLOWED_AXIOMS = C.STD_REAL_AXIOMS
 TRUSTED = [
     "Coq 8.16.1 kernel + vm_compute (no native_compute)",
-    "hand models coq/Model/FlowRP.v, FlowSP.v, FlowEP.v (statement-by-statement models of ReactionPlaneFlow, "
-    "ScalarProductFlow, EventPlaneFlow; first two return values of EP), tied to the real code by this run's correspondence",
+    "translator tools/py2coq/gen_flowest.py (fail-closed; Python ast -> Gallina): whole method bodies of ReactionPlaneFlow "
+    "(integrated_flow, __differential_flow_calculation, the binning loop body of differential_flow), ScalarProductFlow and "
+    "EventPlaneFlow (__compute_particle_weights, __compute_flow_vectors, __sum_weights, __compute_event_angles_sub_events, "
+    "__compute_u_vectors, __compute_event_plane_resolution, __compute_flow_particles, __calculate_reference, "
+    "__calculate_particle_flow, __calculate_flow_event_average, integrated_flow, the binning loop body and the per-bin tail of "
+    "differential_flow) as folds over lists; its semantics of the fragment is trusted: `for i in range(len(X))` with `Y[i]` "
+    "= parallel traversal (IndexError for a shorter Y not represented), a / b = a * (1/b), exact arithmetic, numpy sum/mean "
+    "as sums, np.exp(1j n phi) = the particle's unit vector, the two arctan2/cos compositions = the oracles cosAB / obs",
+    "hand models coq/Model/FlowRP.v, FlowSP.v, FlowEP.v: now PROVED equal to the regenerated method bodies on every finite "
+    "result (C12_source_*); what remains hand-written and tied by correspondence only: which results are non-finite "
+    "(None: sqrt of a negative number, division by zero, NaN resolution), the loop over the bins (the models are per bin), the "
+    "pairing of flow and reference events, the Bessel-function inversion of the event-plane resolution (root finder on "
+    "[0, 20], fallback `return Rn`: compared textually by the translator, an oracle in the model), the event-plane angle "
+    "outputs (3rd/4th return value, not modelled)",
+    "executable instance Model/FlowQ.v: its leaf functions (weight name -> expression, NaN -> 1, sub-event tests, selector "
+    "dispatch and lo <= v < hi) are proved equal to the regenerated ones (C12_source_q_*); its Q arithmetic with Qred, the "
+    "18-digit sqrt and the closed forms of the arctan2 cosines are tied by this run's correspondence",
     "translator tools/py2coq/gen_flowtables.py (tables extractor: selector validation lists, dispatched selector strings, "
     "constructor accepted lists / defaults, dispatched weight strings of the six estimators)",
     "Q-cumulant part: Gen/GenQCumulant.v + C11 (see C11)",
@@ -33,6 +48,10 @@ ASSUMPTIONS = [
     "angle (3rd/4th return value) is not covered",
     "Q-cumulant errors and differential Q-cumulants are covered by the metamorphic runs on the real code only",
     "theorems instantiated at R depend on the stdlib real-number axioms only",
+    "C12_source_*: the regenerated functions use exact arithmetic and have no non-finite values; the theorems state that "
+    "every finite value / error returned by the hand model is the one the regenerated method bodies compute (for the "
+    "reaction plane: full equality, None exactly when the total weight is zero); a mutation that only changes which inputs "
+    "give NaN/inf is seen by the correspondence, not by these theorems",
 ]
 
 SELECTORS = ["pT", "rapidity", "pseudorapidity"]
@@ -130,8 +149,20 @@ def same(a, b, tol=1e-9):
 
 
 def errs_same(a, b):
-    """statistical errors are square roots of differences: compare loosely"""
+    """statistical errors are square roots of differences: compare loosely; the square root of a difference that vanishes up to
+    rounding is 0, a tiny number or nan (negative radicand of rounding size) - these are the same error"""
+    if isinstance(a, list) and isinstance(b, list) and len(a) == len(b):
+        return all(errs_same(x, y) for x, y in zip(a, b))
+    if isinstance(a, float) and isinstance(b, float) and (math.isnan(a) != math.isnan(b)):
+        other = b if math.isnan(a) else a
+        return abs(other) <= 1e-6
     return same(a, b, 1e-6)
+
+
+def all_finite(v):
+    if isinstance(v, list):
+        return all(all_finite(x) for x in v)
+    return isinstance(v, float) and math.isfinite(v)
 
 
 def ill_conditioned(case):
@@ -238,6 +269,8 @@ def oracle(case):
             return f"{case['est']} with {what}: documented arguments raise {base[1]}"
         return None
     rng = __import__("random").Random(json.dumps(case, sort_keys=True))
+    if not all_finite(split(case, base)[0]):
+        return None          # a non-finite flow value (vanishing resolution / weight sum): no value to be invariant
     # 1. rotation: every event by its own angle (reaction plane: one common angle)
     alphas = [rng.uniform(0.0, 2.0 * math.pi) for _ in range(nev)]
     if case["est"] == "RP":
@@ -642,11 +675,50 @@ def correspondence(ctx, model_ok=True):
 
 
 # --------------------------------------------------------------------------------------------- search
+def source_probe_cases():
+    """targeted inputs for the parts that gen_flowest.py regenerates from the source (used by the search when the translator
+    aborts or a C12_source_* theorem no longer checks): every weight name, every selector with several bins, pseudorapidity
+    exactly 0 (on the boundary of gap 0; other boundary values are not stable under a float rotation and would make the
+    metamorphic oracle ill-conditioned), particle weights set / unset (NaN -> 1), self_corr on / off, harmonics 1..4, a flow
+    sample different from the reference sample, events without flow particles"""
+    def part(p, qq, j, pt, eta, w):
+        return {"p": p, "q": qq, "j": j, "pt": pt, "eta": eta, "w": w}
+    ref1 = [part(1, 2, 0, 0.5, 0.75, None), part(-2, 1, 1, 1.25, -0.75, 2.0), part(3, 1, 0, 0.75, 1.25, 0.5),
+            part(1, 3, 2, 1.5, -1.25, None), part(2, 3, 0, 0.25, 0.0, 1.5)]
+    ref2 = [part(-1, 4, 1, 2.25, 0.75, 1.0), part(2, 1, 0, 0.5, -0.75, None), part(1, 1, 3, 1.25, 0.25, 2.0),
+            part(-3, 2, 0, 0.75, -0.25, None)]
+    flow1 = [part(2, 5, 0, 0.5, 0.25, 2.0), part(-1, 2, 1, 1.5, -0.25, None), part(4, 1, 0, 0.75, 0.75, 0.5)]
+    flow2 = [part(1, 5, 2, 1.25, 1.25, None), part(-2, 3, 0, 0.25, -1.25, 1.5)]
+    out = []
+    for est in ("SP", "EP"):
+        for wname in WEIGHTS + ["rapidity", "pseudorapidity"]:
+            for gap in (0.0, 0.5):
+                for sc in (True, False):
+                    base = {"est": est, "n": 2 if wname != "pTn" else 3, "weight": wname, "gap": gap, "self_corr": sc}
+                    out.append(dict(base, mode="int", flow=[flow1, flow2], ref=[ref1, ref2]))
+                    out.append(dict(base, mode="int", flow=[ref1, ref2], ref=[ref1, ref2]))
+        for nn in (1, 2, 3, 4):
+            out.append({"est": est, "n": nn, "weight": "pT", "gap": 0.0, "self_corr": True, "mode": "int",
+                        "flow": [flow1, [], flow2], "ref": [ref1, ref2, ref1]})
+        for sel, bins in (("pT", [0.0, 0.6, 1.0, 1.4]), ("pT", [0.4, 2.5]), ("pseudorapidity", [-1.5, -0.5, 0.1, 0.5, 1.5]),
+                          ("rapidity", [-2.0, -0.1, 2.0])):
+            for sc in (True, False):
+                out.append({"est": est, "n": 2, "weight": "pT2", "gap": 0.5, "self_corr": sc, "mode": "diff", "sel": sel, "bins": bins,
+                            "flow": [flow1, flow2], "ref": [ref1, ref2]})
+    for nn in (1, 2, 3):
+        out.append({"est": "RP", "n": nn, "mode": "int", "flow": [flow1, flow2, ref1], "ref": []})
+        out.append({"est": "RP", "n": nn, "mode": "int", "flow": [[], flow1, [], ref2], "ref": []})
+        for sel, bins in (("pT", [0.0, 0.6, 1.0, 1.4]), ("pseudorapidity", [-1.5, -0.5, 0.1, 0.5, 1.5]), ("rapidity", [-2.0, -0.1, 2.0])):
+            out.append({"est": "RP", "n": nn, "mode": "diff", "sel": sel, "bins": bins, "flow": [flow1, ref1, flow2], "ref": []})
+    return out
+
+
 def search(ctx):
     found, n, seen = [], 0, set()
     budget = 150 if ctx.quick else 1500
-    for _ in range(budget):
-        c = gen_case(ctx.rng, small=True, errors=False)
+    probes = source_probe_cases()
+    for k in range(len(probes) + budget):
+        c = probes[k] if k < len(probes) else gen_case(ctx.rng, small=True, errors=False)
         n += 1
         try:
             msg = oracle(c)
@@ -711,11 +783,19 @@ LEVEL_TEXT = ("Theorems (Coq, any commutative ring, all event lists): reaction p
               "weights) and of the events, one all-containing bin = integrated; Q-cumulants - <<2>>,<<4>>,<<6>> independent "
               "of the random rotations, particle order and event order; finite regenerated tables: validated selectors = "
               "dispatched selectors = {pT, rapidity, pseudorapidity} for all six estimators, constructor defaults inside "
-              "their accepted lists, dispatched weights = accepted weights.")
-LEVEL_NOTE = ("Trusted: Coq kernel/vm_compute; hand models Model/Flow*.v validated by correspondence only; tables translator; "
-              "oracles 1/x, sqrt, abs, comparisons, the two arctan2 cosines (invariance derived over R from arctan2's "
-              "defining property) and the event-plane resolution function; exact arithmetic instead of IEEE rounding. "
-              "Event-plane rotation invariance excludes vanishing vectors (empty sub-event); reaction-plane mean assumes "
-              "positive weights.")
-TECHNIQUE = ("Coq proofs over hand models (Permutation / unit-rotation algebra closed by ring), tables by computation on "
-             "regenerated lists, vm_compute correspondence at exact rationals, metamorphic runs on the real estimators")
+              "their accepted lists, dispatched weights = accepted weights.  Source tie (C12_source_*, 35 theorems, closed "
+              "under the global context): the hand models of the three plane-type estimators equal, method by method and "
+              "composed (integrated_flow, one bin of differential_flow), the Gallina functions regenerated on every run "
+              "from the current Python method bodies - reaction plane: full equality; scalar product / event plane: every "
+              "finite value and error of the model is the regenerated result; the leaf functions of the executable "
+              "instance (weights, NaN -> 1, sub-event and bin comparisons, selector dispatch) are equal to the regenerated ones.")
+LEVEL_NOTE = ("Trusted: Coq kernel/vm_compute; the py2coq translators (gen_flowest: loop/zip/arithmetic semantics of the "
+              "fragment); oracles 1/x, sqrt, abs, comparisons, the two arctan2 cosines (invariance derived over R from "
+              "arctan2's defining property) and the event-plane resolution inversion (compared textually); exact arithmetic "
+              "instead of IEEE rounding.  Still hand-written and tied by correspondence only: where the models return None "
+              "(non-finite floats), the loop over bins, the Q instance's sqrt/arctan2 closed forms.  Event-plane rotation "
+              "invariance excludes vanishing vectors (empty sub-event); reaction-plane mean assumes positive weights.")
+TECHNIQUE = ("Coq proofs over hand models (Permutation / unit-rotation algebra closed by ring); fail-closed AST translation of "
+             "the estimators' method bodies into folds and proofs that the hand models equal them (fold/map/filter lemmas + "
+             "ring); tables by computation on regenerated lists; vm_compute correspondence at exact rationals; metamorphic "
+             "runs on the real estimators, targeted probes for the regenerated branches in the failing-input search")
